@@ -8,6 +8,7 @@ import (
 	"encoding/json"
 	"errors"
 	"fmt"
+	"io"
 	"os"
 	"path/filepath"
 	"strings"
@@ -169,6 +170,29 @@ func errClass(err error) string {
 	}
 }
 
+type errReader struct{}
+
+func (errReader) Read([]byte) (int, error) { return 0, errors.New("injected read error") }
+
+// failing turns a descriptor/content pair into one whose push fails while the
+// content is copied (Push.Fail); mode "" leaves it intact.
+func failing(desc *ocispec.Descriptor, body []byte, mode string) (context.Context, ocispec.Descriptor, io.Reader) {
+	var r io.Reader = bytes.NewReader(body)
+	switch mode {
+	case "digest":
+		desc.Digest = digest.FromString("something else")
+	case "short":
+		desc.Size += 5
+	case "long":
+		if desc.Size > 2 {
+			desc.Size -= 2
+		}
+	case "reader":
+		r = io.MultiReader(bytes.NewReader(body[:len(body)/2]), errReader{})
+	}
+	return ctx, *desc, r
+}
+
 // execute runs one case in a fresh sandbox and judges it.
 func execute(c Case) (res worker.Result) {
 	witness := func(sb *sandbox, reports []pushReport) map[string]any {
@@ -193,7 +217,7 @@ func execute(c Case) (res worker.Result) {
 		res.Count("cases_relying_on_chroot", 1)
 	}
 	res.MaxOf("max_padding_levels", int64(pad))
-	sb, err := newSandbox(pad, c.Prepop)
+	sb, err := newSandbox(pad, c.Prepop, c.Chain)
 	defer sb.destroy()
 	if err != nil {
 		res.Violate("harness:sandbox", err.Error(), nil)
@@ -215,7 +239,10 @@ func execute(c Case) (res worker.Result) {
 
 	wdArg := sb.wd
 	if c.RelWD {
-		wdArg = "../a/wd"
+		if wdArg, err = filepath.Rel(sb.cwd, sb.wd); err != nil {
+			res.Violate("harness:rel", err.Error(), nil)
+			return
+		}
 	}
 	store, err := file.New(wdArg) // default options
 	if err != nil {
@@ -262,7 +289,7 @@ func execute(c Case) (res worker.Result) {
 			if p.Title != "" {
 				desc.Annotations = map[string]string{ocispec.AnnotationTitle: title}
 			}
-			pushErr = store.Push(ctx, desc, bytes.NewReader(body))
+			pushErr = store.Push(failing(&desc, body, p.Fail))
 		case "archive":
 			for _, e := range p.Entries {
 				if e.T == "link" && !strings.HasPrefix(e.L, "$") {
@@ -288,7 +315,7 @@ func execute(c Case) (res worker.Result) {
 			case "bad":
 				desc.Annotations[file.AnnotationDigest] = digest.FromString("other").String()
 			}
-			pushErr = store.Push(ctx, desc, bytes.NewReader(gz))
+			pushErr = store.Push(failing(&desc, gz, p.Fail))
 			res.Count("tar_entries_offered", int64(len(p.Entries)))
 		case "restore":
 			// the layer's bytes are present under another (harmless) name; pushing the
@@ -314,6 +341,16 @@ func execute(c Case) (res worker.Result) {
 			return
 		}
 		res.Count("pushes", 1)
+		if p.Fail != "" {
+			res.Count("pushes_made_to_fail_while_copying", 1)
+			if pushErr == nil {
+				res.Count("pushes_made_to_fail_but_accepted", 1) // C05's subject, not judged here
+			}
+		}
+		if _, err := os.Lstat(sb.wd); err != nil && c.Prepop != "absent" {
+			// recorded, not judged: the working directory is not "outside the working directory"
+			res.Count("pushes_after_which_working_directory_is_gone", 1)
+		}
 		res.Observe("push_outcomes", p.Kind+"/"+errClass(pushErr))
 		if pushErr == nil {
 			res.Count("pushes_accepted", 1)
